@@ -8,6 +8,8 @@
 //	toupper      ToUpper with chosen initial buffers, successive calls reusing the returned buffer
 //	matcher      NewMatcher + Matches for (pattern, caseSensitive, cells)
 //	json-doc     QFrame.ToJSON on small frames (record assembly)
+//	json-frame   QFrame.ToJSON on whole frames of all column types (jsonframe.go)
+//	json-read    qframe.ReadJSON on those documents and on damaged ones (jsonframe.go)
 //
 // Opaque standard library functions are shipped per case as data: unicode.ToUpper for the runes that
 // occur, strings.ToUpper(pattern), regexp answers for the pattern built by the documented rule.
@@ -806,11 +808,11 @@ func familyDoc(su *hlib.Suite, r *hlib.Rng, n int) {
 func main() {
 	cfg := hlib.ParseFlags()
 	s := hlib.NewSuite(cfg, "strings")
-	s.Header = "From QF Require Import Base.Prelude Base.CaseLib Model.Utf8 Model.Json Model.Match Corr.StringsCorr.\nLocal Open Scope N_scope.\n"
+	s.Header = "From QF Require Import Base.Prelude Base.CaseLib Model.Utf8 Model.Json Model.Match Model.Frame Corr.StringsCorr.\nLocal Open Scope N_scope.\n"
 	s.CaseType = "strings_case"
 	s.CheckFn = "check_strings"
 	s.PerShard = 220
-	s.Rule = "utf8: DecodeRuneInString rows (prefix + every last byte) for all 1-/2-byte and sampled 3-/4-byte prefixes, EncodeRune/RuneLen batches from a boundary pool + random int32, whole strings (ValidString, range loop). json-escape: strings from 8 alphabets (ASCII, controls/quotes/backslashes, Latin-1, C1, length-changing, 3-/4-byte incl. U+2028/9, malformed UTF-8, mixed) + random bytes, with a buffer prefix. toupper: the same alphabets at lengths around 6/10/14/20/40, initial buffer 0/10/len+3/len+4/len+5/1024/random, 1-5 successive calls reusing the buffer. matcher: fixed %-placements and metacharacter patterns then generated ones, 3-6 cells built around the literal core (case-swapped for ilike). json-doc: frames with 0-3 columns x 0-3 rows (int/bool/string with nulls). Non-trivial = non-empty input string / pattern / frame; distinct by Coq term."
+	s.Rule = "utf8: DecodeRuneInString rows (prefix + every last byte) for all 1-/2-byte and sampled 3-/4-byte prefixes, EncodeRune/RuneLen batches from a boundary pool + random int32, whole strings (ValidString, range loop). json-escape: strings from 8 alphabets (ASCII, controls/quotes/backslashes, Latin-1, C1, length-changing, 3-/4-byte incl. U+2028/9, malformed UTF-8, mixed) + random bytes, with a buffer prefix. toupper: the same alphabets at lengths around 6/10/14/20/40, initial buffer 0/10/len+3/len+4/len+5/1024/random, 1-5 successive calls reusing the buffer. matcher: fixed %-placements and metacharacter patterns then generated ones, 3-6 cells built around the literal core (case-swapped for ilike). json-doc: frames with 0-3 columns x 0-3 rows (int/bool/string with nulls). json-frame (n/20 cases on top of n): frames of 0-5 columns x 0-6 rows over all five column types (ints incl. extremes, floats from a boundary pool incl. -0, NaN payloads, subnormals, 1e21, random bit patterns; strings, enum values and column NAMES from the alphabets), row index derived by sort/slice/filter; physical dump + ToJSON bytes. json-read (n/12 on top): 65% ToJSON documents read back by ReadJSON with ColumnOrder+Enums / without ColumnOrder / without Enums / another order (2/3 of the frames satisfy the premises of C14_readback), 35% hand-assembled or damaged documents (truncated, wrong type / missing key / null in later records, duplicate keys, numbers out of range); strconv.ParseFloat of every number token shipped as table. Non-trivial = non-empty input string / pattern / frame; distinct by Coq term."
 	r := hlib.NewRng(cfg.Seed)
 	n := cfg.N
 	nUtf8 := n * 20 / 100
@@ -823,5 +825,15 @@ func main() {
 	familyToUpper(s, r.Fork(), nUp)
 	familyMatcher(s, r.Fork(), nMatch)
 	familyDoc(s, r.Fork(), nDoc)
+	// frame-level C14 families: on top of n, so that the budgets and streams of the families above stay as they were
+	nJF, nJR := n/20, n/12
+	if nJF < 12 {
+		nJF = 12
+	}
+	if nJR < 60 {
+		nJR = 60
+	}
+	familyJSONFrame(s, r.Fork(), nJF)
+	familyJSONRead(s, r.Fork(), nJR)
 	s.Finish()
 }
